@@ -51,6 +51,7 @@ CHECKS = {
         ],
         "units": [
             {"name": "c02-diff", "bin": "cmdglyph", "build": "inpkg:cmd/glyph", "run": "^TestC02Diff$", "quick": 30000, "thorough": 1500000},
+            {"name": "c02-builtins", "bin": "cmdglyph", "build": "inpkg:cmd/glyph", "run": "^TestC02Builtins$", "quick": 60000, "thorough": 3000000},
             {"name": "c02-matrix", "bin": "cmdglyph", "build": "inpkg:cmd/glyph", "run": "^TestC02Matrix$", "enumerate": True, "shards": 14},
         ],
     },
@@ -175,6 +176,7 @@ CHECKS = {
         "units": [
             {"name": "c10-source", "bin": "c10", "build": "harness:c10", "run": "^TestC10Source$", "quick": 12000, "thorough": 600000, "rlimit_as_gb": 8},
             {"name": "c10-bytecode", "bin": "c10", "build": "harness:c10", "run": "^TestC10Bytecode$", "quick": 30000, "thorough": 3000000, "rlimit_as_gb": 8, "gomaxprocs": 4},
+            {"name": "c10-calls", "bin": "c10", "build": "harness:c10", "run": "^TestC10Calls$", "quick": 40000, "thorough": 3000000},
             {"name": "c10-roundtrip", "bin": "c10", "build": "harness:c10", "run": "^TestC10RoundTrip$", "quick": 12000, "thorough": 800000},
             {"name": "c10-fuzz-source", "bin": "c10fuzzsrc", "build": "harness:c10", "run": "^TestC10Source$", "fuzz": "FuzzSource", "reports_as": "c10-source", "tiers": ["thorough"], "fuzztime_thorough": 150, "rlimit_as_gb": 64},
             {"name": "c10-fuzz-bytecode", "bin": "c10fuzzbc", "build": "harness:c10", "run": "^TestC10Bytecode$", "fuzz": "FuzzBytecode", "reports_as": "c10-bytecode", "tiers": ["thorough"], "fuzztime_thorough": 150, "rlimit_as_gb": 64},
